@@ -98,3 +98,48 @@ package context
 //@   ensures[latched,C19] c.err != nil ==> unchanged(z)
 //@   ensures[ok,C19] c.err == nil ==> z.prec == c.prec && z.mode == c.mode && valid(z) && z.neg == false
 //@   ensures[operands,C09,C18] unchanged(x)
+
+//@ define fma_nan(x, y, u) = (old(x.form) == zero && old(y.form) == inf) || (old(x.form) == inf && old(y.form) == zero) || ((old(x.form) == inf || old(y.form) == inf) && old(u.form) == inf && (old(x.neg) != old(y.neg)) != old(u.neg))
+//@ func (c *Context) FMA(z, x, y, u *decimal.Decimal) (r *decimal.Decimal)
+//@   requires[wf] ctx_ok(c) && z != nil && valid(z) && z != x && z != y && z != u && opnd(x) && opnd(y) && opnd(u) && sep(z, x) && sep(z, y) && sep(z, u) &&
+//@        x.prec <= 1000000000 && y.prec <= 1000000000 && u.prec <= 1000000000 && len(x.mant) <= 10000000 && len(y.mant) <= 10000000 && len(u.mant) <= 10000000 && len(z.mant) <= 10000000
+//@   requires[prodrange] x.form == finite && y.form == finite ==> MinExp + 18 <= x.exp + y.exp && x.exp + y.exp <= MaxExp - 1
+//@   requires[range] x.form == finite && y.form == finite && u.form == finite ==>
+//@        (x.exp + y.exp - 19*len(x.mant) - 19*len(y.mant)) - (u.exp - 19*len(u.mant)) <= 500000000 &&
+//@        (u.exp - 19*len(u.mant)) - (x.exp + y.exp - 19*len(x.mant) - 19*len(y.mant)) <= 500000000
+//@   modifies c.err, z.mode, z.prec, z.acc, z.form, z.neg, z.exp, z.mant, memcap(z.mant)
+//@   ensures[result,C19] r == z
+//@   ensures[latched,C19] old(c.err) != nil ==> c.err == old(c.err) && unchanged(z)
+//@   ensures[nan,C19] old(c.err) == nil && fma_nan(x, y, u) ==> isErrNaN(c.err)
+//@   ensures[ok,C19] old(c.err) == nil && !fma_nan(x, y, u) ==> c.err == nil && z.prec == c.prec && z.mode == c.mode && valid(z)
+//@   ensures[operands,C09,C18] unchanged(x) && unchanged(y) && unchanged(u)
+
+//@ func (c *Context) Sqrt(z, x *decimal.Decimal) (r *decimal.Decimal)
+//@   requires[wf] ctx_ok(c) && z != nil && valid(z) && z != x && opnd(x) && sep(z, x) && len(x.mant) <= 10000000 && len(z.mant) <= 10000000
+//@   modifies c.err, z.mode, z.prec, z.acc, z.form, z.neg, z.exp, z.mant, memcap(z.mant)
+//@   ensures[result,C19] r == z
+//@   ensures[latched,C19] old(c.err) != nil ==> c.err == old(c.err) && unchanged(z)
+//@   ensures[nan,C19] old(c.err) == nil && old(x.form) != zero && old(x.neg) ==> isErrNaN(c.err)
+//@   ensures[ok,C19] old(c.err) == nil && !(old(x.form) != zero && old(x.neg)) ==> c.err == nil && z.prec == c.prec && z.mode == c.mode && valid(z)
+//@   ensures[operands,C09,C18] unchanged(x)
+
+//@ func (c *Context) New() *decimal.Decimal
+//@   requires[wf] ctx_ok(c)
+//@   ensures[fresh,C19] result != nil && fresh(result) && result.prec == c.prec && result.mode == c.mode && result.form == zero && !result.neg && valid(result) && cap(result.mant) == 0
+
+//@ func (c *Context) NewInt64(x int64) *decimal.Decimal
+//@   requires[wf] ctx_ok(c)
+//@   ensures[attrs,C19] result != nil && fresh(result) && result.prec == c.prec && result.mode == c.mode && valid(result) && result.neg == (x < 0)
+
+//@ func (c *Context) NewUint64(x uint64) *decimal.Decimal
+//@   requires[wf] ctx_ok(c)
+//@   ensures[attrs,C19] result != nil && fresh(result) && result.prec == c.prec && result.mode == c.mode && valid(result) && !result.neg
+
+//@ func (c *Context) NewInt(x *big.Int) *decimal.Decimal
+//@   requires[wf] ctx_ok(c) && x != nil
+//@   ensures[attrs,C19] result != nil && fresh(result) && result.prec == c.prec && result.mode == c.mode && valid(result)
+
+//@ func (c *Context) NewRat(x *big.Rat) *decimal.Decimal
+//@   requires[wf] ctx_ok(c) && x != nil
+//@   requires[size] uf_nwords(uf_num(x)) <= 2000000 && uf_nwords(uf_den(x)) <= 2000000
+//@   ensures[attrs,C19] result != nil && fresh(result) && result.prec == c.prec && result.mode == c.mode && valid(result)
